@@ -540,7 +540,7 @@ def replay(r):
     of alphas covering both extrapolation sides, the core and the breakpoints - through a HISTORY of calls with different
     alpha-set shapes (one column, three columns, one column again) on the same interpolator object"""
     meta = r.get("meta") or {}
-    if meta.get("op") and meta.get("backend"):
+    if (meta.get("op") or meta.get("lifecycle")) and meta.get("backend"):
         from .BK_backend_ops import replay_backend_op
         return replay_backend_op(r)
     code = meta.get("code")
